@@ -48,6 +48,13 @@ class CharsIter:
         self.s, self.i = s, 0
 
 
+class TakeWhileIter:
+    __slots__ = ("it", "clos", "done")
+
+    def __init__(self, it, clos):
+        self.it, self.clos, self.done = it, clos, False
+
+
 class ValIter:
     __slots__ = ("v", "i")
 
@@ -125,6 +132,16 @@ def iter_next(I, it, depth):
         ch = raw[:n].decode("utf-8", "surrogatepass")
         it.i += n
         return some(ord(ch))
+    if isinstance(it, TakeWhileIter):
+        if it.done:
+            return NONE()
+        r = iter_next(I, it.it, depth)
+        if r.vi == 0:
+            return r
+        if call_closure(I, it.clos, [tmp_ref(r.fields[0])], depth):
+            return r
+        it.done = True
+        return NONE()
     if isinstance(it, ValIter):
         if it.i < len(it.v):
             it.i += 1
@@ -343,6 +360,20 @@ def call(I, fr, name, fname, k, args, depth):
         return iter_next(I, args[0], depth)
     if name.endswith("Iterator::enumerate"):
         return EnumIter(args[0])
+    if name.endswith("Iterator::take_while"):
+        return TakeWhileIter(args[0], args[1])
+    if name.endswith("Iterator::count") or name.endswith("Iterator>::count"):
+        n = 0
+        while iter_next(I, args[0], depth).vi == 1:
+            n += 1
+        return n
+    if name.endswith("Iterator::find") or name.endswith("Iterator>::find"):
+        while True:
+            r = iter_next(I, args[0], depth)
+            if r.vi == 0:
+                return r
+            if call_closure(I, args[1], [tmp_ref(r.fields[0])], depth):
+                return r
     if name.endswith("Iterator::skip"):
         it = args[0]
         for _ in range(args[1]):
